@@ -5,4 +5,9 @@ cd "$(dirname "$0")"
 export GOFLAGS=-mod=mod GOPROXY=off GOSUMDB=off GOTOOLCHAIN=local
 mkdir -p .build evidence replays
 cp /repo/go.sum harness/go.sum
-cd harness && go build -o ../.build/vcheck ./cmd/vcheck && echo "setup ok"
+cd harness && go build -o ../.build/vcheck ./cmd/vcheck || exit 1
+# instrumented (overlay) build used by C07, C08, C17, C18
+OVDIR=../.build/overlay; rm -rf "$OVDIR"; mkdir -p "$OVDIR"
+go run ./tools/mkoverlay -repo /repo -out "$OVDIR" -bbolt "$(go list -m -f '{{.Dir}}' go.etcd.io/bbolt)" > ../.build/mkoverlay.log 2>&1 || { cat ../.build/mkoverlay.log; exit 1; }
+GODEBUG=goindex=0 go build -overlay "$OVDIR/overlay.json" -o ../.build/vcheck-i ./cmd/vcheck || exit 1
+echo "setup ok"
